@@ -271,7 +271,11 @@ inline int engineMain(int argc, char** argv, Engine& eng) {
             for (auto& kv : r.counters) tot[kv.first] += kv.second;
             simtime += r.simtime;
             if (r.inconclusive) { nincon++; std::printf("I idx=%ld seed=%llu | %s\n", i, (unsigned long long)seed, sanitize(r.detail).c_str()); }
-            if (r.violation) { nviol++; printViolation(i, seed, r, savePlan(plan, r.vclass, ctx().replayDir)); }
+            if (r.violation) { nviol++;
+                // every violation is reported; the plan file is written for the first 25 of each (class, signature) per worker (the driver
+                // replays a handful per group, and a listed finding can otherwise leave hundreds of thousands of files behind)
+                static std::map<std::string, int> saved; int& n = saved[r.vclass + "|" + r.signature];
+                printViolation(i, seed, r, ++n <= 25 ? savePlan(plan, r.vclass, ctx().replayDir) : std::string("-")); }
             if (perrun) std::printf("r %ld %016llx %d %016llx\n", i, (unsigned long long)r.hash, r.nontrivial ? 1 : 0, (unsigned long long)r.key);
             {   // the batch's wall-clock budget (outside every simulated run); cheap enough to read after each run
                 struct timespec t1; clock_gettime(CLOCK_MONOTONIC, &t1);
